@@ -62,6 +62,10 @@ pub struct K16 {
     /// cut short at the first connect attempt after the first accepted session
     #[serde(default)]
     pub airports_spoiled: Option<String>,
+    /// the server stays away for this many refused connection attempts after the first session
+    /// (an outage of ten minutes and more)
+    #[serde(default)]
+    pub long_outage: Option<u32>,
 }
 
 fn stream_of(s: &S16) -> Vec<u8> {
@@ -119,6 +123,14 @@ pub fn compile(sc: &K16) -> KChild {
             }
         }
     }
+    let outage = match (sc.long_outage, connects.iter().position(|c| c.outcome == KOutcome::Accept)) {
+        (Some(n), Some(i)) if i + 1 < connects.len() => {
+            // at most 11 ms per attempt (10 ms poll + the refused connect)
+            t_total += n as u64 * 11_100;
+            Some((i + 1, n))
+        }
+        _ => None,
+    };
     let max_delay = sc.proc_delay_us.iter().copied().max().unwrap_or(0);
     let margin = (nlines + 30) * (70_000 + max_delay);
     let t_end = t_total + margin;
@@ -135,7 +147,7 @@ pub fn compile(sc: &K16) -> KChild {
         (Some(what), Some(i)) if i + 1 < connects.len() => vec![(i + 1, "airports.csv".to_string(), what.clone())],
         _ => vec![],
     };
-    KChild { tz: None, file_ops, rust_log: sc.rust_log.clone(), gpsd: None, ev_delay_us: vec![], connects, events, proc_delay_us: sc.proc_delay_us.clone(), coalesce: sc.coalesce.clone(), step_budget: 60_000 }
+    KChild { outage, tz: None, file_ops, rust_log: sc.rust_log.clone(), gpsd: None, ev_delay_us: vec![], connects, events, proc_delay_us: sc.proc_delay_us.clone(), coalesce: sc.coalesce.clone(), step_budget: 60_000 + 4 * outage.map(|o| o.1 as u64).unwrap_or(0) }
 }
 
 // ---------------------------------------------------------------------------- generation
@@ -359,7 +371,7 @@ pub fn generate(rng: &mut Rng, fault_free: bool) -> K16 {
         faults.push("quiet_longer_than_expiry_time".into());
         let eintr_reads = if rng.chance(0.3) { (0..1 + rng.below(4)).map(|_| rng.below(40)).collect() } else { vec![] };
         let sessions = vec![S16 { outcome: KOutcome::Accept, lines: lines.iter().map(|l| wire::hex(l)).collect(), splits, close: None, eintr_reads }];
-        return K16 { app: app.into(), retry, limit_parsing, sessions, proc_delay_us: vec![], coalesce: (0..16).map(|_| rng.chance(0.7)).collect(), f3_period_us: 250_000, faults, quiet_filter_s: Some(f), rust_log, airports_spoiled: None };
+        return K16 { app: app.into(), retry, limit_parsing, sessions, proc_delay_us: vec![], coalesce: (0..16).map(|_| rng.chance(0.7)).collect(), f3_period_us: 250_000, faults, quiet_filter_s: Some(f), rust_log, airports_spoiled: None, long_outage: None };
     }
     let nsess_accept = if retry { 1 + rng.usize_below(3) } else { 1 };
     let mut sessions = vec![];
@@ -510,6 +522,12 @@ pub fn generate(rng: &mut Rng, fault_free: bool) -> K16 {
     } else {
         None
     };
+    let long_outage = if retry && nsess_accept >= 2 && rng.chance(0.04) {
+        faults.push("outage_of_tens_of_thousands_of_attempts".into());
+        Some(*rng.pick(&[33_000u32, 66_000, 70_000, 131_500]))
+    } else {
+        None
+    };
     let proc_delay_us = if !fault_free && rng.chance(0.4) {
         faults.push("slow_iteration".into());
         (0..8).map(|_| *rng.pick(&[0u64, 0, 0, 5_000, 60_000, 300_000])).collect()
@@ -517,7 +535,7 @@ pub fn generate(rng: &mut Rng, fault_free: bool) -> K16 {
         vec![]
     };
     let coalesce = if fault_free { vec![] } else { (0..16).map(|_| rng.chance(0.7)).collect() };
-    K16 { app: app.into(), retry, limit_parsing, sessions, proc_delay_us, coalesce, f3_period_us: *rng.pick(&[250_000u64, 400_000, 1_000_000]), faults, quiet_filter_s: None, rust_log, airports_spoiled }
+    K16 { app: app.into(), retry, limit_parsing, sessions, proc_delay_us, coalesce, f3_period_us: *rng.pick(&[250_000u64, 400_000, 1_000_000]), faults, quiet_filter_s: None, rust_log, airports_spoiled, long_outage }
 }
 
 // ---------------------------------------------------------------------------- reference
@@ -848,7 +866,8 @@ pub fn execute(sc: &K16) -> Outcome {
 
 fn leak_fault_name(f: &str) -> &'static str {
     // fault names are a closed set; map to 'static for the counters
-    const NAMES: [&str; 33] = [
+    const NAMES: [&str; 34] = [
+        "outage_of_tens_of_thousands_of_attempts",
         "airports_file_spoiled_while_disconnected",
         "connect_fails_otherwise",
         "diagnostics_switched_on",
@@ -1255,6 +1274,18 @@ pub fn shrink(sc: &K16) -> Vec<K16> {
         let mut x = sc.clone();
         x.airports_spoiled = None;
         c.push(x);
+    }
+    if let Some(n) = sc.long_outage {
+        let mut x = sc.clone();
+        x.long_outage = None;
+        c.push(x);
+        for m in [n / 2, n - n / 8, n - 1] {
+            if m >= 1 && m < n {
+                let mut x = sc.clone();
+                x.long_outage = Some(m);
+                c.push(x);
+            }
+        }
     }
     if !sc.proc_delay_us.is_empty() {
         let mut x = sc.clone();
